@@ -128,6 +128,11 @@ def encCore : Core → String
   | .badTable => "err 0 u"
   | .unmodelled => "unmodelled"
 
+/-- a list whose size IS its number of element columns (`fixed:true` without `size`), or a field that must be present
+(`present:true`: its blank cell is an error, it is no optional field), somewhere in the descriptor -/
+partial def autoFixed (fs : List TableParser.TField) : Bool :=
+  fs.any fun f => (f.prop.fixed && f.prop.size == 0) || f.prop.present || autoFixed f.sub
+
 /-- is `g2` obtained from `g1` by the layout transformation `kind`? (the oracle re-checks what the
 generator claims, so that a generator slip can never raise an alarm) -/
 def related (kind : String) (o1 o2 : TPOpts) (g1 g2 : Grid) : Bool :=
@@ -152,6 +157,34 @@ def related (kind : String) (o1 o2 : TPOpts) (g1 g2 : Grid) : Bool :=
      c1.length == c2.length && c1.all (fun c => c2.contains c) && c2.all (fun c => c1.contains c) &&
      (let names := (g1.getD (o1.so.hdr.nameRow - 1).toNat []);
       names.all (fun n => (names.filter (· == n)).length == 1)))
+  | "dropblank" =>
+    -- clause (d): every field optional; columns whose data cells are all blank removed — plain columns, or the
+    -- columns of the LAST element (index ≥ 2) of a horizontal aggregate
+    o1.so.transpose == o2.so.transpose && !o1.so.transpose && o1.ctx.sheetOptional && o2.ctx.sheetOptional &&
+    (let c1 := transposeGrid (rect g1); let c2 := transposeGrid (rect g2)
+     let nameIdx := (o1.so.hdr.nameRow - 1).toNat
+     let first := (o1.so.hdr.dataRow - 1).toNat
+     let nameOf (c : List Str) : Str := c.getD nameIdx []
+     let names1 := c1.map nameOf
+     let names2 := c2.map nameOf
+     -- split a name at its last run of digits: (prefix, index)
+     let splitIdx (n : Str) : Option (Str × Nat) :=
+       let r := n.reverse
+       let tail := r.dropWhile (fun ch => !Str.isDigit ch)
+       let digs := (tail.takeWhile Str.isDigit).reverse
+       let pre := (tail.dropWhile Str.isDigit).reverse
+       if digs.isEmpty then none else (Str.parseNat digs).map (fun k => (pre, k))
+     g1.length == g2.length && c2.isSublist c1 &&
+     names1.all (fun n => n.isEmpty || (names1.filter (· == n)).length == 1) &&
+     c1.all (fun c =>
+       c2.contains c ||
+       ((c.drop first).all (·.isEmpty) && !(nameOf c).isEmpty &&
+        (match splitIdx (nameOf c) with
+         | none => true
+         | some (pre, k) =>
+           k ≥ 2 && names2.all (fun n2 => match splitIdx n2 with
+             | some (pre2, k2) => !(pre2 == pre && k2 ≥ k)
+             | none => true)))))
   | _ => false
 
 def encGrid (g : Grid) : String :=
@@ -233,6 +266,7 @@ def tp (fn : String) (a : List String) : Option String := do
     let o1 ← decTPOpts? opts1; let o2 ← decTPOpts? opts2
     let g1 ← decGrid? grid1; let g2 ← decGrid? grid2
     if !related kind o1 o2 g1 g2 then none else
+    if kind == "dropblank" && autoFixed (← decTDescArg? _desc) then none else
     some (if obs == "same" then "holds" else "FAILS")
   | "w.c01.case", [opts, hd, desc, val] =>
     let defer := hd.endsWith "d"
